@@ -22,9 +22,9 @@ def want_op(spec, addr):
 def job(j):
     transport, keep = j
     acc = Acc()
-    specs = AA_SPECS if transport == "aa55" else SPECS
+    specs = AA_SPECS if transport in ("aa55", "aa55tcp") else SPECS
     for spec in specs:
-        for R, script in ((2, []), (3, [["drop"], ["garbage", 2], ["answer", 1]]), (1, [["short", 1]]), (2, [["lone", 9, 2]])):
+        for R, script in ((2, []), (3, [["drop"], ["garbage", 2], ["answer", 1]]), (1, [["short", 1]]), (2, [["lone", 9, 2]]), (3, [["drop"], ["drop"], ["answer", 1]])):
             case = {"e2e": True, "transport": transport, "keep": keep, "T": 1.0, "R": R, "script": script, "spec": list(spec)}
             acc.case()
             obs = netcase.run_single(case, command=tuple(spec))
@@ -161,7 +161,7 @@ def run(ctx):
               "concurrent callers on one protocol object (shared / own command objects)")
     ctx.shard(tcp_history_job, [(k, v) for k in (False, True) for v in range(4)],
               "Modbus/TCP transaction ids over request histories with peer resets / closes between and during requests")
-    ctx.shard(job, [(t, k) for t in ("udp", "tcp", "aa55") for k in (False, True)],
+    ctx.shard(job, [(t, k) for t in ("udp", "tcp", "aa55", "aa55tcp") for k in (False, True)],
               "end-to-end: transmissions and retransmissions parsed at the scripted peer")
 
 
